@@ -1500,7 +1500,15 @@ if __name__ == '__main__':
         ],
         assumptions=['IEEE rounding is not modelled: theorems are over ordered fields; the exact-regime '
                      'inputs make the binary64 run coincide with the real-number semantics',
-                     'Eigen LDLT/PartialPivLU::solve return X with R̄X = B (contract; exercised, not proved)'],
+                     'Eigen LDLT/PartialPivLU::solve return X with R̄X = B (contract; exercised, not proved)',
+                     'the test problem is time-varying in every function family (A_t, B_t, Hm_t, w_t, Cc_t depend on '
+                     'the stage index t, never all zero), so a wrong stage index in forward / backward / Qk / Rk / Sk / '
+                     'R_prod / S_prod / gn_hess changes the result',
+                     'Riccati / Gauss-Newton tolerances: eps · cond_inf(dense KKT matrix, exact rationals) · scale · '
+                     '(N+1) with eps = 2^-44 / 2^-40 — the condition number comes from the problem data, never from '
+                     'lqr.min_rcond; cases are excluded only when the exact KKT matrix is singular or its exact '
+                     'condition number exceeds 1e10 (`well-conditioned data` of the quantifier), counted by reason in '
+                     'coverage.riccati / coverage.gauss_newton'],
         rule='layout: 8 corner + ≥40 random dimension tuples; iset: all masks n ≤ 4, all pairs n ≤ 2, random '
              'n ≤ 12; fb: 10 structural corner dimension tuples (no outputs / no stage constraints / '
              'terminal-only / all) × {exact, general} + seeded random polynomial OCPs (bilinear dynamics, '
